@@ -16,8 +16,11 @@ var (
 	VerifC07Gate func()
 )
 
+// verifC07Taking runs BEFORE queueDepth is decremented (so "depth == 0 and taken == done" really means idle),
+// verifC07Taken after it (the gate).
+func (b *ArrowBuffer) verifC07Taking() { verifC07TakenN.Add(1) }
+
 func (b *ArrowBuffer) verifC07Taken() {
-	verifC07TakenN.Add(1)
 	if g := VerifC07Gate; g != nil {
 		g()
 	}
